@@ -284,6 +284,9 @@ func (l *queue) addSegment() (*segment, error) {
 	}
 
 	l.segments = append(l.segments, segment)
+	// The newest segment is the one appends go to. PurgeOlderThan adds a segment so that it can
+	// trim the only (expired) one; the tail must not be left pointing at the segment it closed.
+	l.tail = segment
 	return segment, nil
 }
 
